@@ -309,13 +309,39 @@ def run_gate_native(run: Run, plugins: List[str], tmp: str) -> int:
     mk("enumeration value entry without name", lambda d: d["enumerations"][0]["values"][0].pop("name"))
     mk("messageDirection misspelt", lambda d: d["notifications"][0].__setitem__("messageDirection", "sideways"))
     mk("property with an unknown annotation key", lambda d: d["structures"][1]["properties"][0].__setitem__("commentary", "x"))
+    n_hand = len(edits)
+    # systematic: every section (and a few nested positions) holding a JSON value of another type, or missing.  Empty containers of the
+    # wrong kind ({} / "" where an array is required) are the interesting ones: code that only iterates them sees "no entries".
+    wrong = [("an empty object", {}), ("an empty string", ""), ("null", None), ("the number 0", 0), ("false", False), ("an object", {"a": 1}), ("a string", "x")]
+    cands = []
+    for sec in ("enumerations", "notifications", "requests", "structures", "typeAliases", "metaData"):
+        for label, val in wrong:
+            cands.append((f"section {sec} is {label}", lambda d, sec=sec, val=val: d.__setitem__(sec, val)))
+        cands.append((f"section {sec} is missing", lambda d, sec=sec: d.pop(sec)))
+    for label, val in wrong + [("an empty array", [])]:
+        cands.append((f"properties of a structure is {label}", lambda d, val=val: d["structures"][0].__setitem__("properties", val)))
+        cands.append((f"type of a property is {label}", lambda d, val=val: next(s for s in d["structures"] if s["properties"])["properties"][0].__setitem__("type", val)))
+        cands.append((f"values of an enumeration is {label}", lambda d, val=val: d["enumerations"][0].__setitem__("values", val)))
+        cands.append((f"name of a structure is {label}", lambda d, val=val: d["structures"][0].__setitem__("name", val)))
+        cands.append((f"method of a request is {label}", lambda d, val=val: d["requests"][0].__setitem__("method", val)))
+        cands.append((f"items of an or type is {label}", lambda d, val=val: [t for _, t, c in walk_doc(d) if c == "OrType"][0].__setitem__("items", val)))
+    if run.tier != "thorough":
+        import random as _random
+
+        # quick tier: the empty-container cases for every section plus a sample of the rest (VERIF_SEED); thorough: all
+        keep = [c for c in cands if " is an empty " in c[0] and c[0].startswith("section ")]
+        rest = [c for c in cands if c not in keep]
+        _random.Random(run.seed).shuffle(rest)
+        cands = keep + rest[:18]
+    for name, f in cands:
+        mk(name, f)
     import concurrent.futures as cf
 
     jobs = []
     for ei, (name, d) in enumerate(edits):
         bad = os.path.join(tmp, f"bad{ei}.json")
         json.dump(d, open(bad, "w"))
-        for plugin in plugins:
+        for plugin in plugins if (ei < n_hand or run.tier == "thorough") else plugins[:1]:
             jobs.append((name, plugin, [bad], "first"))
     def one(job):
         name, plugin, models, pos = job
@@ -521,6 +547,89 @@ def main(argv: List[str]) -> int:
         tab(drop_empty_defaults(rbt) == drop_empty_defaults(dt), "load:read-back:text-fields", "reading back a model whose documentation / since / deprecated texts contain CR LF, blanks, tabs, non-ASCII or are empty does not give the document (a text was normalised)", first_difference=_first_diff(drop_empty_defaults(dt), drop_empty_defaults(rbt)))
     except Exception as e:  # noqa
         tab(False, "load:read-back:text-fields", f"a schema-valid model with unusual text fields does not load: {type(e).__name__}: {str(e)[:200]}")
+    # ---- 2b. random schema-valid documents (the committed model uses only part of what the schema admits): each loads, reads back as
+    #          itself, equals a second load of itself; and the five forms of `params` (absent, [], [T], T, [T, T']) are pairwise different
+    from oracle.schemagen import SchemaGen
+    import random as _random
+
+    sg = SchemaGen(schema, exclude_defs={"IntegerLiteralType", "BooleanLiteralType"}, drop_props={"StructureLiteral": {"deprecated", "documentation", "proposed", "since", "sinceTags"}})
+    rooted_schema = {**schema, "$ref": "#/definitions/MetaModel"}
+    rnd = _random.Random(run.seed * 7919 + 5)
+    n_random = 40 if run.tier == "quick" else 600
+    random_docs = 0
+    for k in range(n_random):
+        dk = sg.document(rnd)
+        for en in dk.get("enumerations", []):
+            # the schema cannot say that an entry's value has the enumeration's base type; the loader checks it (obligation
+            # schema:Enumeration.values:value-type below covers the mismatch on its own): keep the random documents consistent
+            for ent in en.get("values", []):
+                ent["value"] = str(ent["value"]) if en["type"]["name"] == "string" else (ent["value"] if isinstance(ent["value"], int) and not isinstance(ent["value"], bool) else len(str(ent["value"])))
+        try:
+            _js.validate(dk, rooted_schema)
+        except _js.ValidationError as e:
+            run.crash(f"schema-driven generator produced an invalid document: {str(e)[:200]}")
+            break
+        random_docs += 1
+        try:
+            m1, m2 = model.LSPModel(**copy.deepcopy(dk)), model.LSPModel(**copy.deepcopy(dk))
+        except Exception as e:  # noqa
+            if not tab(False, "load:random-schema-document", f"a schema-valid document does not load: {type(e).__name__}: {str(e)[:200]}", document=dk, generator_seed=run.seed, index=k):
+                pass
+            break
+        rb = read_back(m1)
+        if drop_empty_defaults(rb) != drop_empty_defaults(dk):
+            tab(False, "load:read-back:random-schema-document", "reading back a schema-valid document does not give the document", first_difference=_first_diff(drop_empty_defaults(dk), drop_empty_defaults(rb)), document=dk, generator_seed=run.seed, index=k)
+            break
+        if not (m1 == m2):
+            tab(False, "eq:random-schema-document:reflexive", "two loads of the same schema-valid document compare unequal", document=dk, generator_seed=run.seed, index=k)
+            break
+    else:
+        tab(True, "load:random-schema-document", "")
+        tab(True, "load:read-back:random-schema-document", "")
+        tab(True, "eq:random-schema-document:reflexive", "")
+    mism = {"metaData": {"version": "0"}, "requests": [], "notifications": [], "structures": [], "typeAliases": [], "enumerations": [{"name": "E", "type": {"kind": "base", "name": "integer"}, "values": [{"name": "A", "value": "a"}]}]}
+    try:
+        _js.validate(mism, rooted_schema)
+        try:
+            model.LSPModel(**copy.deepcopy(mism))
+            tab(True, "schema:Enumeration.values:value-type", "")
+        except Exception as e:  # noqa
+            tab(False, "schema:Enumeration.values:value-type", f"an enumeration of base type integer with a string-valued entry is schema-valid but the loader rejects it: {type(e).__name__}: {str(e)[:120]}", document=mism)
+    except _js.ValidationError:
+        tab(True, "schema:Enumeration.values:value-type", "")  # the schema excludes it: nothing to load
+    T1, T2 = {"kind": "base", "name": "string"}, {"kind": "reference", "name": "Position"}
+    forms = {"absent": None, "empty-list": [], "one-in-list": [T1], "single": T1, "two-in-list": [T1, T2]}
+
+    def with_params(kind: str, form) -> Dict:
+        dd = {"metaData": {"version": "0"}, "requests": [], "notifications": [], "structures": [], "enumerations": [], "typeAliases": []}
+        msg = {"method": "verif/x", "messageDirection": "both"}
+        if kind == "requests":
+            msg["result"] = {"kind": "base", "name": "null"}
+        if form is not None:
+            msg["params"] = copy.deepcopy(form)
+        dd[kind] = [msg]
+        return dd
+
+    for kind in ("requests", "notifications"):
+        loaded = {}
+        okp = True
+        for fname, form in forms.items():
+            dd = with_params(kind, form)
+            try:
+                _js.validate(dd, rooted_schema)
+                loaded[fname] = model.LSPModel(**copy.deepcopy(dd))
+                if drop_empty_defaults(read_back(loaded[fname])) != drop_empty_defaults(dd):
+                    okp = False
+                    tab(False, f"load:read-back:params-forms:{kind}", f"a {kind[:-1]} whose params is {fname} does not read back as written", first_difference=_first_diff(drop_empty_defaults(dd), drop_empty_defaults(read_back(loaded[fname]))), document=dd)
+                    break
+            except Exception as e:  # noqa
+                okp = False
+                tab(False, f"load:read-back:params-forms:{kind}", f"a schema-valid {kind[:-1]} whose params is {fname} does not load: {type(e).__name__}: {str(e)[:160]}", document=dd)
+                break
+        if okp:
+            tab(True, f"load:read-back:params-forms:{kind}", "")
+            same = [(a, b) for a in loaded for b in loaded if a < b and loaded[a] == loaded[b]]
+            tab(not same, f"eq:params-forms:{kind}", f"{kind[:-1]} documents that differ in the form of params compare equal after loading: {same[:2]}", pairs=same)
     # ---- 3. equality natively over every (class, structural field) - replay oracle and bounded stand-in
     for fi, contract, label, meta in items:
         w = native_eq_replay(meta["class"], meta["structural"])
